@@ -106,8 +106,11 @@ func WaitClosed(ch <-chan struct{}) bool {
 }
 
 // WaitUntil polls cond until it is true or the liveness bound expires.
-func WaitUntil(cond func() bool) bool {
-	deadline := time.Now().Add(LivenessBound)
+func WaitUntil(cond func() bool) bool { return WaitUntilFor(LivenessBound, cond) }
+
+// WaitUntilFor polls cond until it is true or d expires.
+func WaitUntilFor(d time.Duration, cond func() bool) bool {
+	deadline := time.Now().Add(d)
 	for i := 0; ; i++ {
 		if cond() {
 			return true
